@@ -1030,6 +1030,9 @@ Fixpoint feed_closure (g : cfg) (s : server) (sl : list session) : option server
       let dead := match s_state x, s_tr x, s_tcpconn x with
                   | SPlay, Some (SPTCP, _), Some c =>
                       match find_conn c (v_conns s) with None => true | Some _ => false end
+                  (* ... and so does the writer of a session that plays over UDP towards client port 0:
+                     sendto() refuses the destination (thorough-tier observation 2026-09-23) *)
+                  | SPlay, Some (SPUDP, _), _ => existsb (fun m => m_rtp m =? 0) (s_medias x)
                   | _, _, _ => false
                   end in
       if dead then
@@ -1060,7 +1063,18 @@ Fixpoint run_wire (g : cfg) (s : server) (advs : list (N * N)) (evs : list weven
                        end in
           match feed_closure g s1 (v_sess s1) with
           | None => [77]
-          | Some s2 => put_outcome o ++ run_wire g s2 advs' t
+          | Some s2 =>
+              (* what the peer sees: the connection is closed after the response also when the session that
+                 owns it died of a writer error right after answering *)
+              let o' := match e', o with
+                        | SConn c _, OResp st false adv =>
+                            match find_conn c (v_conns s1), find_conn c (v_conns s2) with
+                            | Some _, None => OResp st true adv
+                            | _, _ => o
+                            end
+                        | _, _ => o
+                        end in
+              put_outcome o' ++ run_wire g s2 advs' t
           end
       end
   end.
